@@ -43,6 +43,7 @@ Pipelines (Martian/TypingPipeline.lean):
   top     <cstm>               → `ok <shape>` | `bad <cls,…>`   (top-level call statement, `checkTop`)
   path    <type|-> <type> <json> <path> new|old → `<json>` | `none`   (`pathVal` / `wholeRT`: LazyArgumentMap.Path
                                  with destination type, source type, value; `old` = before repair 85e056c)
+  hyp     <env> <type> <exp>   → `<t.wf> <e.wf> <holeFree>`
   sretain <nouts> (<out> <type>){nouts} <hexlist>   → `true` | `false`
   strict  <env> <type> <exp>   → `<validExp> <overStrict>`
 -/
@@ -377,6 +378,12 @@ def handle (op : String) (args : List String) : Option String :=
     match r with
     | some w => pure (showJ w)
     | none => pure "none"
+  | "hyp", [env, t, e] => do
+    -- the decidable hypotheses of the soundness theorems on one binding
+    let Γ ← whole parseEnv env
+    let t ← whole parseTy t
+    let e ← whole parseExp e
+    pure (" ".intercalate [boolStr t.wf, boolStr e.wf, boolStr (holeFree Γ t e)])
   | "strict", [env, t, e] => do
     let Γ ← whole parseEnv env
     let t ← whole parseTy t
